@@ -315,8 +315,11 @@ def t1_simple(kind, alias=0, timeout_ms=60000):
 # ---------------------------------------------------------------------------------------------------------------
 # deciding an identity between a sum of result words and a specification form
 # ---------------------------------------------------------------------------------------------------------------
-def residual_zero(L, D, facts=(), goal=None, timeout_ms=60000):
-    """decide  facts => (D == 0 [and goal])  in a fresh small solver over the variables of the residual form D"""
+def residual_zero(L, D, facts=(), goal=None, timeout_ms=15000):
+    """decide  facts => (D == 0 [and goal])  in a fresh small solver over the variables of the residual form D (a residual with
+    many terms means that the normal forms do not telescope: not attempted, the caller looks for a concrete witness instead)"""
+    if len(D.t) > 48:
+        return None
     s = z3.Solver()
     s.set("timeout", timeout_ms)
     for v in D.t:
@@ -447,6 +450,8 @@ def t1_montgomery(kind, alias=0, timeout_ms=120000):
         raise Violation(key + ":shape", "%s never multiplies by the inverse word" % sym, ce)
     if "T" not in seen:
         raise Violation(key + ":shape", "%s never calls fpbase_384_reduce" % sym, ce)
+    if ores.written:
+        raise Violation(key + ":shape", "%s stores into the result object itself; the result must come from fpbase_384_reduce alone" % sym, ce)
     L2 = st["L2"]
     if len(st["us"]) != 12:
         fail(key + ":shape", kind, alias, "%s: expected 12 multiplications by the inverse word, saw %d" % (sym, len(st["us"])))
